@@ -216,10 +216,13 @@ class Arrow:
 
     def __getitem__(self, key):
         if isinstance(key, slice):
-            if key.step == -1:
-                boxes = [box[::-1] for box in self.boxes[key]]
+            if key.step == -1:  # the dagger of the boxes that key selects.
+                start, stop, _ = key.indices(len(self))
+                forward = self if (start, stop) == (len(self) - 1, -1)\
+                    else self[stop + 1:max(start, stop) + 1]
+                boxes = [box[::-1] for box in forward.boxes[::-1]]
                 return self.upgrade(
-                    Arrow(self.cod, self.dom, boxes, _scan=False))
+                    Arrow(forward.cod, forward.dom, boxes, _scan=False))
             if (key.step or 1) != 1:
                 raise IndexError
             boxes = self.boxes[key]
